@@ -211,6 +211,7 @@ pub fn run(args: &vpc::Args) -> ! {
         agg.dedup_ignored += s.dedup_ignored;
         agg.tie_points += s.tie_points;
         agg.recover_selected += s.recover_selected;
+        agg.quiet_ticks += s.quiet_ticks;
     };
 
     let phases = phases(quick, &arg);
@@ -328,6 +329,7 @@ pub fn run(args: &vpc::Args) -> ! {
     run.outcome_n("Deliver of reports lying on no cached path", agg.unrelated_deliver as u64);
     run.outcome_n("reports ignored by the dedup window", agg.dedup_ignored as u64);
     run.outcome_n("p1/p2 ranking tie points", agg.tie_points as u64);
+    run.outcome_n("maintenance ticks without lookup (due before next_refetch)", agg.quiet_ticks as u64);
     run.outcome_n("slot moved onto a path whose penalty is older than a half-life", agg.recover_selected as u64);
 
     let bound = format!("all event histories after the initial lookup up to: {} ; each over 4 configurations (min_refetch_delay 5/4 s x max_cached 2/3)", bounds.join("; "));
@@ -349,7 +351,7 @@ pub fn run(args: &vpc::Args) -> ! {
             },
         }),
         &[
-            "the worker loop is played by the explorer: maintenance fires at its due instant (AdvLate: once per history 1 s late), issue delivery is a separate event",
+            "the worker loop is played by the explorer: maintenance fires at the instant the real PathSet::next_maintain asks for (AdvLate: once per history 1 s late); a tick due before next_refetch is run without a scripted lookup and must not look up; issue delivery is a separate event",
             "time is integer seconds; observation instants between ticks are the path-expiry instants and the end of each advance",
             "inside one advance only the first tick branches over the outcome alphabet, later ticks of the same advance repeat that outcome re-stamped (all tick sequences remain reachable through shorter advances)",
             "states are merged on a key of subject state relative to now (scores rounded to 1e-3, issue ages clamped at 600 s); the oracles' reference memory is not part of the key",
